@@ -1,0 +1,245 @@
+//go:build verif
+
+package rueidis
+
+import (
+	"context"
+	"sort"
+	"sync/atomic"
+	"time"
+
+	"github.com/redis/rueidis/internal/cmds"
+)
+
+// Verification hooks (build tag `verif` only) for the cluster client: the topology
+// parsers, a cluster client built over scripted per-node backends, snapshots of its
+// slot tables, the batch grouping functions and the single-flight `call`.
+
+// VerifGroup is one entry of the map returned by parseSlots/parseShards.
+type VerifGroup struct {
+	Master string
+	Nodes  []string
+	Slots  [][2]int64
+}
+
+func verifGroups(m map[string]group) []VerifGroup {
+	out := make([]VerifGroup, 0, len(m))
+	for k, g := range m {
+		vg := VerifGroup{Master: k, Slots: append([][2]int64(nil), g.slots...)}
+		for _, n := range g.nodes {
+			vg.Nodes = append(vg.Nodes, n.Addr)
+		}
+		out = append(out, vg)
+	}
+	sort.Slice(out, func(i, j int) bool { return out[i].Master < out[j].Master })
+	return out
+}
+
+func VerifParseSlots(m RedisMessage, defaultAddr string) []VerifGroup {
+	return verifGroups(parseSlots(m, defaultAddr))
+}
+
+func VerifParseShards(m RedisMessage, defaultAddr string, tls bool) []VerifGroup {
+	return verifGroups(parseShards(m, defaultAddr, tls))
+}
+
+func VerifParseEndpoint(fallback, endpoint string, port int64) string {
+	return parseEndpoint(fallback, endpoint, port)
+}
+
+// VerifNodeBackend answers what one cluster node receives.
+type VerifNodeBackend interface {
+	VerifBackend
+	Version() int
+}
+
+type verifNodeConn struct {
+	b      VerifNodeBackend
+	addr   string
+	serial uint64
+}
+
+var verifNodeSerial uint64
+
+var _ conn = (*verifNodeConn)(nil)
+
+func (c *verifNodeConn) Do(ctx context.Context, cmd Completed) RedisResult { return c.b.Do(ctx, cmd) }
+func (c *verifNodeConn) DoCache(ctx context.Context, cmd Cacheable, ttl time.Duration) RedisResult {
+	return c.b.DoCache(ctx, cmd, ttl)
+}
+func (c *verifNodeConn) DoMulti(ctx context.Context, multi ...Completed) *redisresults {
+	return &redisresults{s: c.b.DoMulti(ctx, multi...)}
+}
+func (c *verifNodeConn) DoMultiCache(ctx context.Context, multi ...CacheableTTL) *redisresults {
+	return &redisresults{s: c.b.DoMultiCache(ctx, multi...)}
+}
+func (c *verifNodeConn) Receive(context.Context, Completed, func(PubSubMessage)) error { return nil }
+func (c *verifNodeConn) DoStream(context.Context, Completed) RedisResultStream {
+	return RedisResultStream{e: ErrClosing}
+}
+func (c *verifNodeConn) DoMultiStream(context.Context, ...Completed) MultiRedisResultStream {
+	return MultiRedisResultStream{e: ErrClosing}
+}
+func (c *verifNodeConn) Info() map[string]RedisMessage { return nil }
+func (c *verifNodeConn) Version() int                  { return c.b.Version() }
+func (c *verifNodeConn) AZ() string                    { return "" }
+func (c *verifNodeConn) Error() error                  { return nil }
+func (c *verifNodeConn) Close()                        {}
+func (c *verifNodeConn) Dial() error                   { return nil }
+func (c *verifNodeConn) Override(conn)                 {}
+func (c *verifNodeConn) Acquire(context.Context) wire  { return nil }
+func (c *verifNodeConn) Store(wire)                    {}
+func (c *verifNodeConn) Addr() string                  { return c.addr }
+func (c *verifNodeConn) SetOnCloseHook(func(error))    {}
+func (c *verifNodeConn) OptInCmd() cmds.Completed      { return cmds.OptInCmd }
+
+// VerifCluster is a real *clusterClient whose node connections are scripted backends.
+type VerifCluster struct{ c *clusterClient }
+
+// VerifNewCluster runs newClusterClient (init + first refresh included). mk is called for every
+// connection the client creates (replicaOnly tells the option set it was created with);
+// delay is the RetryDelayFn of the retry handler. The returned value is non-nil whenever
+// newClusterClient returned a client (it does so together with a refresh error).
+func VerifNewCluster(opt *ClientOption, mk func(addr string, replicaOnly bool) VerifNodeBackend, delay RetryDelayFn) (*VerifCluster, error) {
+	c, err := newClusterClient(opt, func(dst string, o *ClientOption) conn {
+		return &verifNodeConn{b: mk(dst, o.ReplicaOnly), addr: dst, serial: atomic.AddUint64(&verifNodeSerial, 1)}
+	}, newRetryer(delay))
+	if c == nil {
+		return nil, err
+	}
+	return &VerifCluster{c: c}, err
+}
+
+func (v *VerifCluster) Client() Client { return v.c }
+
+// Refresh runs the single-flight refresh the way pick/pickMulti do.
+func (v *VerifCluster) Refresh(ctx context.Context) error { return v.c.refresh(ctx) }
+
+// RefreshPending reports whether a (lazy or explicit) refresh is currently in flight.
+func (v *VerifCluster) RefreshPending() bool {
+	v.c.sc.mu.Lock()
+	defer v.c.sc.mu.Unlock()
+	return v.c.sc.ch != nil
+}
+
+func verifConnName(c conn) (string, uint64) {
+	if c == nil {
+		return "", 0
+	}
+	if vc, ok := c.(*verifNodeConn); ok {
+		return vc.addr, vc.serial
+	}
+	return c.Addr(), 0
+}
+
+// WSlots returns, per slot, the address of the connection in the write table ("" = nil)
+// and the connection's serial number.
+func (v *VerifCluster) WSlots() (addrs []string, serials []uint64) {
+	addrs = make([]string, 16384)
+	serials = make([]uint64, 16384)
+	v.c.mu.RLock()
+	for i, cc := range v.c.wslots {
+		addrs[i], serials[i] = verifConnName(cc)
+	}
+	v.c.mu.RUnlock()
+	return
+}
+
+// HasRSlots reports whether the read table is allocated.
+func (v *VerifCluster) HasRSlots() bool {
+	v.c.mu.RLock()
+	defer v.c.mu.RUnlock()
+	return v.c.rslots != nil
+}
+
+// RSlots returns the read-node addresses of one slot.
+func (v *VerifCluster) RSlots(slot int) (addrs []string) {
+	v.c.mu.RLock()
+	defer v.c.mu.RUnlock()
+	if v.c.rslots == nil {
+		return nil
+	}
+	for _, n := range v.c.rslots[slot] {
+		a, _ := verifConnName(n.conn)
+		addrs = append(addrs, a)
+	}
+	return
+}
+
+// Conns returns the connection map: address -> (serial, hidden).
+func (v *VerifCluster) Conns() (addrs []string, serials []uint64, hidden []bool) {
+	v.c.mu.RLock()
+	for a := range v.c.conns {
+		addrs = append(addrs, a)
+	}
+	sort.Strings(addrs)
+	for _, a := range addrs {
+		_, s := verifConnName(v.c.conns[a].conn)
+		serials = append(serials, s)
+		hidden = append(hidden, v.c.conns[a].hidden)
+	}
+	v.c.mu.RUnlock()
+	return
+}
+
+// PickAddr is _pick: the address the slot routes to ("" when nil).
+func (v *VerifCluster) PickAddr(slot uint16, toReplica bool) string {
+	a, _ := verifConnName(v.c._pick(slot, toReplica))
+	return a
+}
+
+// VerifPick is one per-connection sub-batch built by _pickMulti/_pickMultiCache.
+type VerifPick struct {
+	Addr    string
+	Indexes []int
+	Cmds    []Completed
+}
+
+func (v *VerifCluster) PickMulti(multi []Completed) (picks []VerifPick, init bool, ok bool) {
+	retries, init := v.c._pickMulti(multi)
+	if retries == nil {
+		return nil, init, false
+	}
+	for cc, re := range retries.m {
+		a, _ := verifConnName(cc)
+		picks = append(picks, VerifPick{Addr: a, Indexes: append([]int(nil), re.cIndexes...), Cmds: append([]Completed(nil), re.commands...)})
+	}
+	sort.Slice(picks, func(i, j int) bool { return picks[i].Addr < picks[j].Addr })
+	return picks, init, true
+}
+
+func (v *VerifCluster) PickMultiCache(multi []CacheableTTL) (picks []VerifPick, ok bool) {
+	retries := v.c._pickMultiCache(multi)
+	if retries == nil {
+		return nil, false
+	}
+	for cc, re := range retries.m {
+		a, _ := verifConnName(cc)
+		p := VerifPick{Addr: a, Indexes: append([]int(nil), re.cIndexes...)}
+		for _, ct := range re.commands {
+			p.Cmds = append(p.Cmds, Completed(ct.Cmd))
+		}
+		picks = append(picks, p)
+	}
+	sort.Slice(picks, func(i, j int) bool { return picks[i].Addr < picks[j].Addr })
+	return picks, true
+}
+
+// VerifCall wraps the single-flight `call` of singleflight.go.
+type VerifCall struct{ c call }
+
+func (v *VerifCall) Do(ctx context.Context, fn func() error) error { return v.c.Do(ctx, fn) }
+func (v *VerifCall) DelayDo(d time.Duration, fn func() error)      { v.c.DelayDo(d, fn) }
+func (v *VerifCall) Suppressing() int                              { return v.c.suppressing() }
+func (v *VerifCall) InFlight() bool {
+	v.c.mu.Lock()
+	defer v.c.mu.Unlock()
+	return v.c.ch != nil
+}
+
+// VerifRedirect exposes shouldRefreshRetry's classification without the lazy refresh side effect
+// being observable to the caller (it still fires, as in the real paths).
+func (v *VerifCluster) ShouldRefreshRetry(err error) (addr string, mode int) {
+	a, m := v.c.shouldRefreshRetry(err, context.Background())
+	return a, int(m)
+}
